@@ -1,4 +1,4 @@
-import Proofs.Lemmas.HeapEntries
+import Proofs.Lemmas.HeapSucc
 /-
 C11 — Copies and sibling instances share no mutable state.
 
@@ -432,10 +432,13 @@ example : (match copyRoot [exCls] exUncFixed exA.2 with
 
 Observational equality includes the *internal* sharing structure: which `__dict__` entries lead to the same object.
 A fresh model / linker has `endogenous` and `check` as two different new lists (also when `CHECK is ENDOGENOUS` at
-class level), and a copy made by `copy()` never has an object reachable from two different entries (each entry is
-deep-copied by its own `deepcopy` call) — so a fresh instance and its copies have the same, trivial, entry-level
-structure.  The other side of the same fact is the open finding `copy-cuts-internal-alias`: an object the USER stores
-under two attributes is duplicated by `copy()` (example below). -/
+class level).  Since /repo commit 5ca5eb2 `VectorContainer.copy` deep-copies the whole `__dict__` with ONE memo: the
+copy is a graph isomorphism (`MemoIso`: the memo is an injective function from old to new objects, every new object's
+entries are the images of the old one's), so two entries of the copy share an object **iff** the corresponding
+entries of the original do — the copy's entry-aliasing partition equals the original's.  (Before the fix every
+entry was copied by a call of its own and an object stored under two attributes was duplicated: finding
+`copy-cuts-internal-alias`, fixed.)  `BaseLinker.copy` still copies entry by entry; for linkers the statement is
+that the copy's entries are separate. -/
 
 /-- **fresh_check_is_not_endogenous.** -/
 theorem fresh_check_is_not_endogenous (ci : Nat) (cd : ClassDesc) (h : Heap) (span sub : Val)
@@ -444,12 +447,41 @@ theorem fresh_check_is_not_endogenous (ci : Nat) (cd : ClassDesc) (h : Heap) (sp
          (construct cd h span sub).2.lookup "check" = some (.ref (L + 1)) :=
   construct_check_ne_endogenous cd h span sub hc
 
-/-- **copy_entries_separate.**  In the copy of a container / model no object is reachable from two different
-    `__dict__` entries. -/
-theorem copy_entries_separate {cs : List ClassDesc} {h h1 : Heap} {a c : Nat} {o : Obj} {ci : Nat} {cd : ClassDesc}
-    (W : WorldOK2 cs h) (ho : h[a]? = some o) (hk : o.kind = .inst ci) (hcd : cs[ci]? = some cd)
-    (hnl : cd.base ≠ .linker) (hc : copyRoot cs h a = some (h1, c)) : EntriesSeparate h1 c :=
-  copyRoot_entries_separate W ho hk hcd hnl hc
+/-- **copy_entry_aliasing_preserved** (containers and models).  For every two entries of the original and the
+    entries of the copy under the same keys: the copy's entries reach a common object iff the original's do.
+    Hypotheses beyond `WorldOK2`: the heap is acyclic, and no *instance* is reachable from the entries (a nested
+    instance is copied by its own `copy()`, i.e. with a memo of its own). -/
+theorem copy_entry_aliasing_preserved {cs : List ClassDesc} {h h1 : Heap} {a c : Nat} {o : Obj} {ci : Nat}
+    {cd : ClassDesc} (W : WorldOK2 cs h) (ac : AcyclicH h) (ho : h[a]? = some o) (hk : o.kind = .inst ci)
+    (hcd : cs[ci]? = some cd) (hnl : cd.base ≠ .linker) (plain : ∀ k v, (k, v) ∈ o.slots → PlainV h v)
+    (hc : copyRoot cs h a = some (h1, c)) :
+    ∃ o', h1[c]? = some o' ∧ ∀ k1 k2 v1 v2 w1 w2, o.slots.lookup k1 = some v1 → o.slots.lookup k2 = some v2 →
+      o'.slots.lookup k1 = some w1 → o'.slots.lookup k2 = some w2 → (SharedV h1 w1 w2 ↔ SharedV h v1 v2) :=
+  copyRoot_aliasing_preserved W ac ho hk hcd hnl plain hc
+
+/-- **copy_entries_separate_linker.**  In the copy of a linker no object is reachable from two different
+    `__dict__` entries (the new `submodels` dict with the copied submodels, and every other entry, live in blocks
+    of their own). -/
+theorem copy_entries_separate_linker {cs : List ClassDesc} {h h1 : Heap} {a c : Nat} {o : Obj} {ci : Nat}
+    {cd : ClassDesc} (W : WorldOK2 cs h) (ho : h[a]? = some o) (hk : o.kind = .inst ci) (hcd : cs[ci]? = some cd)
+    (hl : cd.base = .linker) (hc : copyRoot cs h a = some (h1, c)) : EntriesSeparate h1 c :=
+  copyRoot_entries_separate_linker W ho hk hcd hl hc
+
+/-! ## `copy()` succeeds
+
+Every copy theorem above is conditional on `copyRoot … = some …`.  It does succeed: if every reference goes to an
+object of smaller rank (`Ranked`; hence the heap is acyclic), nothing reachable from the root is uncopyable and
+every reachable instance has a class (a linker also its `submodels` dict) (`Copyable`), and the rank of the root is
+at most the number of objects of the heap — the driver's fuel is `h.length + 1` — then `copyRoot` returns a copy. -/
+
+/-- **copy_succeeds.** -/
+theorem copy_succeeds {cs : List ClassDesc} {h : Heap} (W : WorldOK cs h) {rk : Nat → Nat} (R : Ranked h rk)
+    {a : Nat} (ha : a < h.length) (hr : rk a ≤ h.length) (C : Copyable cs h a) :
+    ∃ h1 c, copyRoot cs h a = some (h1, c) :=
+  copyRoot_succeeds W R ha hr C
+
+/-- A ranked heap is acyclic (the hypothesis of `copy_entry_aliasing_preserved`). -/
+theorem ranked_acyclic {h : Heap} {rk : Nat → Nat} (R : Ranked h rk) : AcyclicH h := acyclic_of_ranked R
 
 /-- Executable form of `EntriesSeparate` (for the examples and the driver). -/
 def entryAliases (h : Heap) (a : Nat) : List (String × String) :=
@@ -467,14 +499,14 @@ set_option maxRecDepth 8000 in
 example : (match copyRoot [exCls] exH exA.2 with
     | some (h1, c) => decide (entryAliases h1 c = [])
     | none => false) = true := by decide
--- the open finding in the model: the user stores one list under `p` and `q`; the copy has two lists
+-- the user stores one list under `p` and `q`: the copy keeps exactly that alias (one memo)
 def exAliased : Heap :=
   run (applyOp exB.1 exA.2 (.addAttrList "p" ["u"])) exA.2
     [⟨[], .bindNew "q" .tuple [("0", .alias ["p"])]⟩]
 set_option maxRecDepth 8000 in
 example : entryAliases exAliased exA.2 = [("p", "q")] ∧
     (match copyRoot [exCls] exAliased exA.2 with
-      | some (h1, c) => decide (entryAliases h1 c = [])
+      | some (h1, c) => decide (entryAliases h1 c = [("p", "q")])
       | none => false) = true := by decide
 
 /-! ## Non-vacuity (review): every hypothesis of the theorems above, instantiated at the example world
@@ -509,9 +541,29 @@ example : Disjoint (runBothOps exC1.1 exA.2 exC1.2
 -- successive_copies_disjoint: W, ha, hc1, hc2
 example : exC1.2 ≠ exC2.2 ∧ Disjoint exC2.1 exC1.2 exC2.2 ∧ Disjoint exC2.1 exA.2 exC1.2 ∧ Disjoint exC2.1 exA.2 exC2.2 :=
   successive_copies_disjoint exW2.toWorldOK (by decide) exC1_eq exC2_eq
--- copy_entries_separate: W, ho, hk, hcd, hnl, hc
-example : EntriesSeparate exC1.1 exC1.2 :=
-  copy_entries_separate (o := exH[exA.2]) (ci := 0) (cd := exCls) exW2 (by decide) (by decide) (by decide) (by decide) exC1_eq
+-- copy_succeeds: W, Ranked (rank = depth of the structure), root valid, rank of the root ≤ heap size, Copyable
+theorem exRanked : Ranked exH (depth exH exH.length) := ranked_of_check (by decide)
+example : ∃ h1 c, copyRoot [exCls] exH exA.2 = some (h1, c) :=
+  copy_succeeds exW2.toWorldOK exRanked (by decide) (by decide) (copyable_of_check (by decide) _)
+-- copy_entry_aliasing_preserved: on the world where the user stored one list under `p` and inside the tuple `q`
+theorem exWA : WorldOK2 [exCls] exAliased := worldOK2_of_check (by decide)
+def exCA : Heap × Nat := (copyRoot [exCls] exAliased exA.2).getD ([], 0)
+set_option maxRecDepth 8000 in
+theorem exCA_eq : copyRoot [exCls] exAliased exA.2 = some (exCA.1, exCA.2) := by decide
+example : ∃ o', exCA.1[exCA.2]? = some o' ∧ ∀ k1 k2 v1 v2 w1 w2, (exAliased[exA.2]).slots.lookup k1 = some v1 →
+    (exAliased[exA.2]).slots.lookup k2 = some v2 → o'.slots.lookup k1 = some w1 → o'.slots.lookup k2 = some w2 →
+    (SharedV exCA.1 w1 w2 ↔ SharedV exAliased v1 v2) :=
+  copy_entry_aliasing_preserved (o := exAliased[exA.2]) (ci := 0) (cd := exCls) exWA
+    (ranked_acyclic (rk := depth exAliased exAliased.length) (ranked_of_check (by decide)))
+    (by decide) (by decide) (by decide) (by decide) (plainEntries_of_check (by decide)) exCA_eq
+-- copy_entries_separate_linker: two linkers built with default arguments; a copy of the first
+theorem exWL : WorldOK2 [exCls, exLCls] exL2.1 := worldOK2_of_check (by decide)
+def exCL : Heap × Nat := (copyRoot [exCls, exLCls] exL2.1 exL1.2).getD ([], 0)
+set_option maxRecDepth 8000 in
+theorem exCL_eq : copyRoot [exCls, exLCls] exL2.1 exL1.2 = some (exCL.1, exCL.2) := by decide
+example : EntriesSeparate exCL.1 exCL.2 :=
+  copy_entries_separate_linker (o := exL2.1[exL1.2]) (ci := 1) (cd := exLCls) exWL (by decide) (by decide) (by decide)
+    (by decide) exCL_eq
 
 -- siblings: disjoint_frame / disjoint_frame_ops / interleaved_* need WF, both roots valid and `Disjoint`, which is what
 -- `siblings_disjoint` gives for `a` and `b` (its own hypotheses: `exWF`, `exOK`)
